@@ -426,6 +426,8 @@ def cases(draw):
         case["slow_peer"] = draw(st.sampled_from([50, 300, 1000]))
     if draw(st.integers(0, 2)) == 0:
         case["cb_shape"] = draw(st.sampled_from(["callable_object", "partial", "sync_wrapper"]))
+    if draw(st.integers(0, 4)) == 0:
+        case["params"] = draw(st.sampled_from([{"q": 1, "_meta": {"progressToken": "token-of-an-earlier-call"}}, {"_meta": {"progressToken": 0}}, {"q": None, "_meta": {"x": 1}}, None, {}]))
     if case["use_token"] or tc is not None:
         r_ = draw(st.integers(0, 5))
         if r_ == 0:
@@ -473,7 +475,9 @@ def job_grid(col: Collector, seed: int, tier: str, shard: int, nshards: int) -> 
                         c3 = dict(case, slow_peer=sp, progress=[], cb_raise=[])
                         col.record(c3, check(c3))
                 if bgk == "none":
-                    for extra in ({"cb_shape": "callable_object"}, {"cb_shape": "sync_wrapper"}, {"shared_token": True}, {"retry_same_token": True}):
+                    for extra in ({"cb_shape": "callable_object"}, {"cb_shape": "sync_wrapper"}, {"shared_token": True}, {"retry_same_token": True},
+                                  # the params dict was used for an earlier call (send_message writes the token into it) or the caller put a token of its own there
+                                  {"params": {"q": 1, "_meta": {"progressToken": "token-of-an-earlier-call"}}}, {"params": {"_meta": {"progressToken": 7, "vendor": {"k": None}}}}, {"params": {"q": 1, "_meta": {}}}):
                         c2 = dict(case, **extra)
                         col.record(c2, check(c2))
                     case = dict(case, follow_up=True, progress=case["progress"] + [[125, "right", ["progress"], [10, None, None]], [150, "right", ["progress", "total"], [11, 12, None]]])
